@@ -349,3 +349,56 @@ Proof.
   pose proof (append_moment_last (run empty_circuit h) m (history_cache_ok h)) as H.
   destruct (append (run empty_circuit h) [IMom m] EARLIEST) as [c' r] eqn:E. cbn [fst] in *. exact H.
 Qed.
+
+(* ==== an edit does not depend on what the circuit remembers of its past: after any history, insert / append
+        (every strategy, index and tree) build the moments that the same call builds on a freshly rebuilt equal
+        circuit (Circuit._from_moments: no placement cache, no summaries) ==== *)
+Lemma insert_moms_sums ms ca s1 s2 i its s :
+  moms (fst (insert (mkc ms ca s1) i its s)) = moms (fst (insert (mkc ms ca s2) i its s)) /\
+  snd (insert (mkc ms ca s1) i its s) = snd (insert (mkc ms ca s2) i its s).
+Proof.
+  unfold insert. cbn [moms cache sm].
+  destruct s;
+    try (destruct (do_batches _ _) as [st [e|]]; split; reflexivity).
+  destruct (insert_latest _ _ _) as [st [e|]]; [split; reflexivity|].
+  destruct (l_max st =? -1); split; reflexivity.
+Qed.
+
+Lemma insert_as_rebuilt c i its s : cache_ok c ->
+  moms (fst (insert c i its s)) = moms (fst (insert (from_moments (moms c)) i its s)).
+Proof.
+  intros Hok. unfold from_moments.
+  rewrite (proj1 (insert_moms_sums (moms c) None no_sums (sm c) i its s)).
+  destruct (cache c) as [pc|] eqn:Ec.
+  2:{ replace (mkc (moms c) None (sm c)) with c by (destruct c; simpl in *; congruence). reflexivity. }
+  destruct (negb (strategy_eqb s EARLIEST) || negb (Nat.eqb (clamp_index i (length (moms c))) (length (moms c)))) eqn:E.
+  - unfold insert. cbn [moms cache sm]. rewrite E. reflexivity.
+  - apply orb_false_elim in E. destruct E as [E1 E2]. apply negb_false_iff in E1, E2.
+    assert (s = EARLIEST) by (destruct s; simpl in E1; congruence). subst s.
+    apply Nat.eqb_eq in E2.
+    assert (Hi : forall c0, moms c0 = moms c -> insert c0 i its EARLIEST = append c0 its EARLIEST).
+    { intros c0 H0. unfold append, insert. rewrite H0.
+      replace (clamp_index (Z.of_nat (length (moms c))) (length (moms c))) with (length (moms c))
+        by (unfold clamp_index; destruct (0 <=? Z.of_nat (length (moms c))) eqn:E; lia).
+      rewrite E2. reflexivity. }
+    rewrite (Hi c eq_refl), (Hi (mkc (moms c) None (sm c)) eq_refl).
+    apply (cached_append_eq_uncached c its pc Ec (Hok pc Ec)).
+Qed.
+
+Theorem history_insert_as_rebuilt h i its s :
+  moms (run empty_circuit (h ++ [CInsert i its s])) =
+  moms (fst (insert (from_moments (moms (run empty_circuit h))) i its s)).
+Proof.
+  rewrite run_app. cbn [run step].
+  pose proof (insert_as_rebuilt (run empty_circuit h) i its s (history_cache_ok h)) as H.
+  destruct (insert (run empty_circuit h) i its s) as [c' r] eqn:E. cbn [fst] in *. exact H.
+Qed.
+
+Theorem history_append_as_rebuilt h its s :
+  moms (run empty_circuit (h ++ [CAppend its s])) =
+  moms (fst (append (from_moments (moms (run empty_circuit h))) its s)).
+Proof.
+  rewrite run_app. cbn [run step]. unfold append.
+  pose proof (insert_as_rebuilt (run empty_circuit h) (Z.of_nat (length (moms (run empty_circuit h)))) its s (history_cache_ok h)) as H.
+  destruct (insert (run empty_circuit h) _ its s) as [c' r] eqn:E. cbn [fst moms from_moments] in *. exact H.
+Qed.
